@@ -42,24 +42,25 @@ theorem aux_conforms (L : Leaf N) (native : Item → Bool) (hn : ∀ n, native (
     (h : AuxSpecOk a) : Spec.Metadata.auxiliary_data native (itemAux L a) = true :=
   auxiliary_data_itemAux L native hn a h
 
-/-- the full statement — "whatever the constructors accept is written as the CDDL prescribes" — is FALSE of the code -/
+/-- … in particular whatever the constructors make of their arguments (`normAux`: a Shelley-MA form without a script
+list is given the empty list), as soon as the metadata is in the CDDL ranges -/
+theorem constructed_conforms_partial (L : Leaf N) (native : Item → Bool) (hn : ∀ n, native (L.enc n) = true) (a : Aux N)
+    (h : AuxMdSpecOk a) :
+    Spec.Metadata.auxiliary_data native (itemAux L (normAux a)) = true ∧
+    (∀ m, a = .shelley m → validate m = true) := by
+  refine ⟨aux_conforms L native hn (normAux a) (auxSpecOk_normAux a h), ?_⟩
+  intro m hm
+  subst hm
+  simp only [AuxMdSpecOk, specOkM, List.all_eq_true, Bool.and_eq_true] at h
+  simp only [validate, List.all_eq_true]
+  exact fun p hp => validV_of_spec p.2 (h p hp).2
+
+/-- the full statement — "whatever the constructors accept is written as the CDDL prescribes" — is FALSE of the code:
+`_validate` lets through values that are not a `transaction_metadatum` -/
 def constructed_conforms_goal : Prop :=
   ∀ (native : Item → Bool) (L : Leaf Nat), (∀ n, native (L.enc n) = true) →
     ∀ a : Aux Nat, AuxOk a → (∀ m, (a = .shelley m ∨ (∃ ns, a = .shelleyMa ⟨m, ns⟩) ∨ ∃ b, a = .alonzo b ∧ b.metadata = some m) →
-      validate m = true) → Spec.Metadata.auxiliary_data native (itemAux L a) = true
-
-/-- what has to be added to the constructor's check: 64-bit integers, no booleans, the size limit on nested keys, `uint`
-labels, and a script list in the Shelley-MA form (`AuxSpecOk`); everything that meets it also passes `_validate` -/
-theorem constructed_conforms_partial (L : Leaf N) (native : Item → Bool) (hn : ∀ n, native (L.enc n) = true) (a : Aux N)
-    (h : AuxSpecOk a) :
-    Spec.Metadata.auxiliary_data native (itemAux L a) = true ∧
-    (∀ m, a = .shelley m → validate m = true) := by
-  refine ⟨aux_conforms L native hn a h, ?_⟩
-  intro m hm
-  subst hm
-  simp only [AuxSpecOk, specOkM, List.all_eq_true, Bool.and_eq_true] at h
-  simp only [validate, List.all_eq_true]
-  exact fun p hp => validV_of_spec p.2 (h p hp).2
+      validate m = true) → Spec.Metadata.auxiliary_data native (itemAux L (normAux a)) = true
 
 def natLeaf : Leaf Nat := ⟨fun n => .uint n, fun i => match i with | .uint n => .ok n | _ => .deser⟩
 def natRule : Item → Bool
@@ -67,7 +68,7 @@ def natRule : Item → Bool
   | _ => false
 
 /-- witnesses (each accepted by the constructors): a `True` value is written `f5`; `2^64` as a bignum tag; a 65-byte key
-of a nested map; a negative label; `ShelleyMarryMetadata(m)` as `[m, null]` -/
+of a nested map; a negative label -/
 theorem constructed_conforms_counterexample : ¬ constructed_conforms_goal := by
   intro h
   have := h natRule natLeaf (fun _ => rfl) (.shelley [(0, .bool true)]) ⟨by simp [labels], by decide⟩
@@ -89,8 +90,11 @@ example : ([.shelley exMeta, .shelleyMa ⟨exMeta, some [1, 2]⟩, .alonzo {}, .
       (fun a => auxSpecOkB a && Spec.Metadata.auxiliary_data natRule (itemAux natLeaf a)) = true := by decide +kernel
 -- the recogniser refuses what the counterexamples write
 example : ([.shelley [(0, .bool true)], .shelley [(0, .int 18446744073709551616)], .shelley [(-1, .int 0)],
-    .shelley [(0, .map [(.bytes (List.replicate 65 0), .int 0)])], .shelleyMa ⟨[], Option.none⟩] : List (Aux Nat)).all
-      (fun a => !Spec.Metadata.auxiliary_data natRule (itemAux natLeaf a)) = true := by decide +kernel
+    .shelley [(0, .map [(.bytes (List.replicate 65 0), .int 0)])]] : List (Aux Nat)).all
+      (fun a => !Spec.Metadata.auxiliary_data natRule (itemAux natLeaf (normAux a))) = true := by decide +kernel
+-- the Shelley-MA form without a script list conforms once constructed; `null` in its place (a foreign stream) does not
+example : Spec.Metadata.auxiliary_data natRule (itemAux natLeaf (normAux (.shelleyMa ⟨exMeta, Option.none⟩))) = true ∧
+    Spec.Metadata.auxiliary_data natRule (itemAux natLeaf (.shelleyMa ⟨exMeta, Option.none⟩)) = false := by decide +kernel
 -- … and is not trivially true: wrong tag, a sixth key, a repeated key, a text label
 example : ([.tag 258 (.map []), .tag 259 (.map [(.uint 5, .array [])]), .tag 259 (.map [(.uint 2, .array []), (.uint 2, .array [])]),
     .map [(.text [97], .uint 1)], .array [.map []], .tag 259 (.array [])] : List Item).all
